@@ -97,20 +97,18 @@ unsafe impl Send for RawLock {}
 unsafe impl Sync for RawLock {}
 
 impl RawLock {
-    pub const fn new() -> Self {
-        Self { id: Cell::new(0) }
+    /// The id is assigned eagerly (a lazy assignment would be a write through a possibly
+    /// symbolic object pointer at first use).
+    pub fn new() -> Self {
+        let t = table();
+        let id = t.next;
+        assert!(id < NLOCK, "VERIF: bound exceeded: too many locks");
+        t.next = id + 1;
+        Self { id: Cell::new(id) }
     }
     #[inline]
     pub fn id(&self) -> usize {
-        let mut id = self.id.get();
-        if id == 0 {
-            let t = table();
-            id = t.next;
-            assert!(id < NLOCK, "VERIF: bound exceeded: too many locks");
-            t.next = id + 1;
-            self.id.set(id);
-        }
-        id
+        self.id.get()
     }
     #[inline]
     pub fn acquire_shared(&self) {
@@ -177,7 +175,7 @@ unsafe impl<T: ?Sized + Send> Send for RwLock<T> {}
 unsafe impl<T: ?Sized + Send + Sync> Sync for RwLock<T> {}
 
 impl<T> RwLock<T> {
-    pub const fn new(t: T) -> Self {
+    pub fn new(t: T) -> Self {
         Self { raw: RawLock::new(), data: UnsafeCell::new(t) }
     }
     pub fn into_inner(self) -> T {
@@ -278,7 +276,7 @@ unsafe impl<T: ?Sized + Send> Send for Mutex<T> {}
 unsafe impl<T: ?Sized + Send> Sync for Mutex<T> {}
 
 impl<T> Mutex<T> {
-    pub const fn new(t: T) -> Self {
+    pub fn new(t: T) -> Self {
         Self { raw: RawLock::new(), data: UnsafeCell::new(t) }
     }
     pub fn into_inner(self) -> T {
@@ -368,9 +366,27 @@ impl Condvar {
 // ==========================================================================================
 // Arc / Weak model
 // ==========================================================================================
+pub const NARC: usize = 24;
+pub struct ArcTable {
+    pub strong: [usize; NARC],
+    pub next: usize,
+}
+pub static mut ARCS: ArcTable = ArcTable { strong: [0; NARC], next: 0 };
+#[inline]
+fn arcs() -> &'static mut ArcTable {
+    #[allow(static_mut_refs)]
+    unsafe {
+        &mut *core::ptr::addr_of_mut!(ARCS)
+    }
+}
+
+/// The strong count lives in a global table indexed by a per-allocation id, so that `clone` /
+/// `drop` through a possibly symbolic `Arc` pointer only *read* through the pointer (the id) and
+/// never write through it (a write through a symbolic pointer is a conditional update of every
+/// candidate object; measured 20x formula blow-up).
 #[repr(C)]
 struct ArcInner<T> {
-    strong: Cell<usize>,
+    id: usize,
     value: T,
 }
 
@@ -382,7 +398,12 @@ unsafe impl<T: Send + Sync> Sync for Arc<T> {}
 
 impl<T> Arc<T> {
     pub fn new(value: T) -> Self {
-        let b = Box::new(ArcInner { strong: Cell::new(1), value });
+        let t = arcs();
+        let id = t.next;
+        assert!(id < NARC, "VERIF: bound exceeded: too many Arc allocations");
+        t.next = id + 1;
+        t.strong[id] = 1;
+        let b = Box::new(ArcInner { id, value });
         Self { ptr: Box::into_raw(b) }
     }
     #[inline]
@@ -391,7 +412,7 @@ impl<T> Arc<T> {
     }
     #[inline]
     pub fn strong_count(this: &Self) -> usize {
-        this.inner().strong.get()
+        arcs().strong[this.inner().id]
     }
     #[inline]
     pub fn ptr_eq(a: &Self, b: &Self) -> bool {
@@ -413,25 +434,25 @@ impl<T> Arc<T> {
     }
     /// Model-only: set the strong count (harness state builders: "k extra handles exist").
     pub fn verif_set_strong(this: &Self, n: usize) {
-        this.inner().strong.set(n);
+        arcs().strong[this.inner().id] = n;
     }
 }
 impl<T> Clone for Arc<T> {
     #[inline]
     fn clone(&self) -> Self {
-        let i = self.inner();
-        i.strong.set(i.strong.get() + 1);
+        let id = self.inner().id;
+        arcs().strong[id] += 1;
         Self { ptr: self.ptr }
     }
 }
 impl<T> Drop for Arc<T> {
     #[inline]
     fn drop(&mut self) {
-        let i = self.inner();
-        let n = i.strong.get();
         // never torn down (leak): see module doc
-        if n > 0 {
-            i.strong.set(n - 1);
+        let id = self.inner().id;
+        let t = arcs();
+        if t.strong[id] > 0 {
+            t.strong[id] -= 1;
         }
     }
 }
@@ -462,12 +483,12 @@ impl<T> Weak<T> {
         if self.ptr.is_null() {
             return None;
         }
-        let i = unsafe { &*self.ptr };
-        let n = i.strong.get();
-        if n == 0 {
+        let id = unsafe { &*self.ptr }.id;
+        let t = arcs();
+        if t.strong[id] == 0 {
             return None;
         }
-        i.strong.set(n + 1);
+        t.strong[id] += 1;
         Some(Arc { ptr: self.ptr })
     }
 }
